@@ -11,7 +11,10 @@ CLASSES = {
 
 
 # minimized failures of earlier seeded changes that every engine property runs first
-COMMON_CORPUS = ["(?=)a{1,2}?b", "(?=)(a){0,2}?$", "\\ba{1,2}?b", "(?:x|(?!a))?a", "(?>(?:(a)|b(?!x))+)c|\\w+"]
+COMMON_CORPUS = ["(?=)a{1,2}?b", "(?=)(a){0,2}?$", "\\ba{1,2}?b", "(?:x|(?!a))?a", "(?>(?:(a)|b(?!x))+)c|\\w+",
+                 # constructs the coverage measurement of the quick tier showed were never EXECUTED by the VM
+                 # (always delegated): line anchors, word-start / word-end assertions, control escapes
+                 "(?m)(?=)^a", "(?m:a$)(?=)", "(?m)(?<=^a)b", "(?m)(?:(?=)$\\n?)+", "(?=)\\<a", "a\\>(?=)", "(?<=\\<a)b", "(?=)\\n\\<", "(?s)(?=).a", "(?=)a\\tb", "(?i)(?=)(a)\\1"]
 
 
 def known_for(prop):
@@ -60,13 +63,13 @@ def text_set(tier, seed, cfg):
     base = gen.texts(cfg.get("exh_len_quick", 2) if tier == "quick" else cfg.get("exh_len_thorough", 3), alpha)
     extra = ["aab", "abab", "aabb", "éa-", "ab\nab", "aaaa", "cabc", "aaa", "abc", "aéb", "a-b", "bca", "ababab", "aaaaaa",
              # more repetitions than any bounded quantifier of the grammar admits, then a continuation
-             "aaab", "aaaab", "abbb", "aaabc", "baaab"]
+             "aaab", "aaaab", "abbb", "aaabc", "baaab", "a\tb", "a\nA", "aA", "\ta\r\n"]
     extra += cfg.get("extra_texts", [])
     rnd = [gen.random_text(r, 6, alpha) for _ in range(20 if tier == "quick" else 150)]
     return base, extra + rnd
 
 
-ALWAYS = ["aaab", "aaa"]      # more repetitions than {1,2} / {0,2} admit, with and without a continuation
+ALWAYS = ["aaab", "aaa", "a\nab", "ab a"]      # more repetitions than {1,2} / {0,2} admit, with and without a continuation
 
 
 def pick_texts(info, base, extra, r, k_base, k_extra):
